@@ -1,0 +1,165 @@
+//! Verification hooks, compiled only with `--cfg just_verif`.
+//!
+//! In-process entry points used by the external verification harness. Every
+//! function returns plain data and never prints or exits.
+
+use super::*;
+
+fn token_json(token: &Token) -> serde_json::Value {
+  serde_json::json!({
+    "kind": format!("{:?}", token.kind),
+    "offset": token.offset,
+    "length": token.length,
+    "line": token.line,
+    "column": token.column,
+  })
+}
+
+fn compile_error_json(error: &CompileError) -> serde_json::Value {
+  let kind = format!("{:?}", error.kind);
+  let kind = kind
+    .split(|c: char| !c.is_alphanumeric())
+    .next()
+    .unwrap_or_default()
+    .to_string();
+  serde_json::json!({
+    "error": kind,
+    "token": token_json(&error.token),
+    "message": error.to_string(),
+    "rendered": format!("{}\n{}", error, error.token.color_display(Color::never())),
+  })
+}
+
+fn analyze<'src>(
+  tokens: &[Token<'src>],
+  working_directory: &'src Path,
+) -> CompileResult<'src, (Ast<'src>, Justfile<'src>)> {
+  let ast = Parser::parse(0, &[], None, tokens, working_directory)?;
+  let root = PathBuf::from("justfile");
+  let mut asts: HashMap<PathBuf, Ast> = HashMap::new();
+  asts.insert(root.clone(), ast.clone());
+  let mut paths: HashMap<PathBuf, PathBuf> = HashMap::new();
+  paths.insert(root.clone(), root.clone());
+  let justfile = Analyzer::analyze(&asts, None, &[], &[], None, &paths, &root)?;
+  Ok((ast, justfile))
+}
+
+/// Lex `src`, returning the token list or the error as JSON.
+#[must_use]
+pub fn lex(src: &str) -> String {
+  match Lexer::lex(Path::new("justfile"), src) {
+    Ok(tokens) => {
+      serde_json::json!({"tokens": tokens.iter().map(token_json).collect::<Vec<_>>()}).to_string()
+    }
+    Err(error) => compile_error_json(&error).to_string(),
+  }
+}
+
+/// Lex, parse and analyze a single-file justfile; returns the JSON dump, the
+/// formatted source and the unstable features, or the compile error.
+#[must_use]
+pub fn compile(src: &str) -> String {
+  let working_directory = PathBuf::new();
+  let tokens = match Lexer::lex(Path::new("justfile"), src) {
+    Ok(tokens) => tokens,
+    Err(error) => return compile_error_json(&error).to_string(),
+  };
+  match analyze(&tokens, &working_directory) {
+    Ok((ast, justfile)) => serde_json::json!({
+      "dump": serde_json::to_value(&justfile).unwrap_or(serde_json::Value::Null),
+      "formatted": ast.to_string(),
+      "unstable": justfile
+        .unstable_features
+        .iter()
+        .map(|feature| format!("{feature:?}"))
+        .collect::<Vec<_>>(),
+    })
+    .to_string(),
+    Err(error) => compile_error_json(&error).to_string(),
+  }
+}
+
+/// Group command line `words` into recipe invocations against `src`.
+#[must_use]
+pub fn group(src: &str, words: &[String]) -> String {
+  let working_directory = PathBuf::new();
+  let tokens = match Lexer::lex(Path::new("justfile"), src) {
+    Ok(tokens) => tokens,
+    Err(error) => return compile_error_json(&error).to_string(),
+  };
+  let justfile = match analyze(&tokens, &working_directory) {
+    Ok((_, justfile)) => justfile,
+    Err(error) => return compile_error_json(&error).to_string(),
+  };
+  let words = words.iter().map(String::as_str).collect::<Vec<&str>>();
+  let result = match ArgumentParser::parse_arguments(&justfile, &words) {
+    Ok(groups) => serde_json::json!({
+      "groups": groups
+        .iter()
+        .map(|group| serde_json::json!({"path": group.path, "arguments": group.arguments}))
+        .collect::<Vec<_>>(),
+    }),
+    Err(error) => {
+      let kind = format!("{error:?}");
+      let kind = kind
+        .split(|c: char| !c.is_alphanumeric())
+        .next()
+        .unwrap_or_default()
+        .to_string();
+      serde_json::json!({"error": kind, "message": error.color_display(Color::never()).to_string()})
+    }
+  };
+  result.to_string()
+}
+
+/// Split positional command line values into overrides, search directory and
+/// arguments.
+#[must_use]
+pub fn positional(words: &[String]) -> String {
+  let positional = Positional::from_values(Some(words.iter().map(String::as_str)));
+  serde_json::json!({
+    "overrides": positional.overrides,
+    "search_directory": positional.search_directory,
+    "arguments": positional.arguments,
+  })
+  .to_string()
+}
+
+/// Strip common indentation as done for indented strings and backticks.
+#[must_use]
+pub fn unindent_text(text: &str) -> String {
+  unindent::unindent(text)
+}
+
+fn append_line(variable: &str, line: &str) {
+  if let Some(path) = env::var_os(variable) {
+    if let Ok(mut file) = fs::OpenOptions::new().create(true).append(true).open(path) {
+      file.write_all(line.as_bytes()).ok();
+    }
+  }
+}
+
+/// Called by the signal handler once it has finished processing `signal`.
+pub(crate) fn signal_processed(signal: Signal) {
+  append_line(
+    "JUST_VERIF_SIGNAL_MARKER",
+    &format!("{}\n", signal.number()),
+  );
+}
+
+/// Called before each child process is spawned. When a gate directory is
+/// configured, announces the spawn and waits until it is released.
+pub(crate) fn before_spawn() {
+  static COUNTER: std::sync::atomic::AtomicUsize = std::sync::atomic::AtomicUsize::new(0);
+  let Some(gate) = env::var_os("JUST_VERIF_SPAWN_GATE") else {
+    return;
+  };
+  let gate = PathBuf::from(gate);
+  let n = COUNTER.fetch_add(1, std::sync::atomic::Ordering::SeqCst);
+  fs::write(gate.join(format!("ready.{n}")), b"").ok();
+  let release = gate.join(format!("release.{n}"));
+  let all = gate.join("release.all");
+  while !release.exists() && !all.exists() {
+    std::thread::sleep(std::time::Duration::from_millis(1));
+  }
+}
